@@ -5,14 +5,19 @@ Import ListNotations.
 Open Scope N_scope.
 
 Record Agree (s : st) (a : astate) : Prop := mkAgree {
-  ag_class : forall x, get (s_class s) [x] = option_map fst (a_contract a x);
-  ag_nonce : forall x, get (s_nonce s) [x] = option_map snd (a_contract a x);
+  ag_class : forall x, get (s_class s) [x] = option_map fst (a_exists a x);
+  ag_nonce : forall x, get (s_nonce s) [x] = option_map snd (a_exists a x);
   ag_store : forall x k, getd (s_store s) [x; k] = a_slot a x k;
-  ag_decl : forall h, get (s_decl s) [h] = a_decl a h
+  ag_decl : forall h, get (s_decl s) [h] = a_decl a h;
+  (* every non-zero slot of a system contract is among the slots the truth keeps track of *)
+  ag_sysk : forall x k, is_sys x = true -> a_slot a x k <> 0 -> In (x, k) (a_sysk a)
 }.
 
 Lemma Agree_empty : Agree st_empty a_empty.
-Proof. constructor; simpl; auto. Qed.
+Proof.
+  constructor; simpl; auto; intros; try congruence;
+    unfold a_exists; simpl; destruct (is_sys x); auto.
+Qed.
 
 Lemma keqb2 : forall x k y z, keqb [x; k] [y; z] = (y =? x) && (z =? k).
 Proof.
@@ -37,52 +42,126 @@ Proof.
   unfold mem. induction l; simpl; intros; auto. rewrite IHl. rewrite keqb1. rewrite (N.eqb_sym a h). auto.
 Qed.
 
-(* both backends write the same head buckets *)
+(* both backends write the same head buckets (under the guard no system contract is removed) *)
 Definition same_head (s' s : st) (d : diff) : Prop :=
-  s_class s' = upd_class d (s_class s) /\ s_nonce s' = upd_nonce d (s_nonce s) /\
+  s_class s' = upd_class (with_sys (s_class s) d) (s_class s) /\ s_nonce s' = upd_nonce (with_sys (s_class s) d) (s_nonce s) /\
   s_store s' = upd_store (d_store d) (s_store s) /\ s_decl s' = upd_decl (s_next s) d (s_decl s).
 
-Lemma Agree_store : forall s s' d a, Inv s -> Valid s d -> Agree s a -> same_head s' s d ->
+Lemma sys_exists_iff : forall a x, sys_exists a x = true <-> exists k, In (x, k) (a_sysk a) /\ a_slot a x k <> 0.
+Proof.
+  unfold sys_exists. intros. rewrite existsb_exists. split.
+  - intros [[y k] [Hin E]]. simpl in E. apply andb_true_iff in E. destruct E as [E1 E2].
+    apply N.eqb_eq in E1. subst. exists k. split; auto. apply negb_true_iff in E2. lia.
+  - intros [k [Hin E]]. exists (x, k). split; auto. simpl. rewrite N.eqb_refl. simpl.
+    apply negb_true_iff. lia.
+Qed.
+
+Lemma find_sys_new_none : forall cls d x, is_sys x = false -> find (fun e => keqb [x] [fst e]) (sys_new cls d) = None.
+Proof.
+  intros. destruct (find _ (sys_new cls d)) eqn:F; auto.
+  apply find_key_some in F. destruct F as [K Hin]. inversion K; subst.
+  apply in_sys_new in Hin. destruct Hin as [_ Hin]. apply in_sys_missing in Hin. destruct Hin as [Hs _]. congruence.
+Qed.
+
+Lemma Agree_store : forall s s' d a, Inv s -> VS s d -> Inv s' -> Agree s a -> same_head s' s d ->
   Agree s' (apply_diff a (s_next s) d).
 Proof.
-  intros s s' d a I Vd Ag [E1 [E2 [E3 E4]]]. constructor; simpl.
-  - intros x. rewrite E1, get_upd_class, !assoc_find.
-    destruct (find (fun e => keqb [x] [fst e]) (d_replace d)) eqn:F1.
-    + apply find_key_some in F1. destruct F1 as [K Hin]. inversion K; subst.
-      pose proof (v_replace _ _ Vd _ Hin) as Hc.
-      destruct (find (fun e => keqb [fst p] [fst e]) (d_deploy d)) eqn:F2.
-      * simpl. auto.
-      * rewrite (ag_class _ _ Ag) in Hc. destruct (a_contract a (fst p)) as [[c nn]|]; simpl; auto. contradiction.
-    + destruct (find (fun e => keqb [x] [fst e]) (d_deploy d)) eqn:F2; simpl; auto.
-      rewrite (ag_class _ _ Ag). destruct (a_contract a x) as [[c nn]|]; simpl; auto.
-  - intros x. rewrite E2, get_upd_nonce, !assoc_find.
-    destruct (find (fun e => keqb [x] [fst e]) (d_nonce d)) eqn:F1.
-    + apply find_key_some in F1. destruct F1 as [K Hin]. inversion K; subst.
-      destruct (find (fun e => keqb [fst p] [fst e]) (d_deploy d)) eqn:F2; simpl; auto.
-      destruct (v_nonce _ _ Vd _ Hin) as [Hc | Hd].
-      * rewrite (ag_class _ _ Ag) in Hc. destruct (a_contract a (fst p)) as [[c nn]|]; simpl; auto. contradiction.
-      * apply inkeys_find in Hd. destruct Hd. congruence.
-    + destruct (find (fun e => keqb [x] [fst e]) (d_deploy d)) eqn:F2; simpl; auto.
-      rewrite (ag_nonce _ _ Ag). destruct (a_contract a x) as [[c nn]|]; simpl; auto.
-  - intros x k. rewrite E3. unfold getd. rewrite get_upd_store by apply (i_s4 _ I). rewrite assoc2_find.
+  intros s s' d a I V I' Ag [E1 [E2 [E3 E4]]]. pose proof (vs_valid _ _ V) as Vd.
+  assert (ST : forall x k, getd (s_store s') [x; k] = a_slot (apply_diff a (s_next s) d) x k).
+  { intros x k. rewrite E3. unfold getd. rewrite get_upd_store by apply (i_s4 _ I). simpl. rewrite assoc2_find.
     destruct (find (fun e => keqb [x; k] (skey e)) (d_store d)).
-    + destruct (snd p =? 0) eqn:E; auto. lia.
-    + apply (ag_store _ _ Ag).
-  - intros h. rewrite E4, get_upd_decl. rewrite (ag_decl _ _ Ag). rewrite mem_existsb. auto.
+    - destruct (snd p =? 0) eqn:E; auto. lia.
+    - apply (ag_store _ _ Ag). }
+  assert (SK : forall x k, is_sys x = true -> a_slot (apply_diff a (s_next s) d) x k <> 0 ->
+               In (x, k) (a_sysk (apply_diff a (s_next s) d))).
+  { intros x k Hx Hv. simpl in *. apply in_or_app. rewrite assoc2_find in Hv.
+    destruct (find (fun e => keqb [x; k] (skey e)) (d_store d)) eqn:F.
+    - left. apply find_key_some in F. destruct F as [K Hin]. unfold skey in K. inversion K.
+      apply in_map_iff. exists p. split; [destruct p as [[? ?] ?]; simpl in *; congruence|].
+      apply filter_In. split; auto. congruence.
+    - right. apply (ag_sysk _ _ Ag); auto. }
+  (* a system contract has a record after the block iff the truth says it exists *)
+  assert (SX : forall x, is_sys x = true ->
+               (get (s_class s') [x] <> None <-> sys_exists (apply_diff a (s_next s) d) x = true)).
+  { intros x Hx. split.
+    - intros Hc. pose proof (i_sys _ I' x Hx Hc) as Hh. apply has_store_iff in Hh; [|apply (i_s4 _ I')].
+      destruct Hh as [k [v [G P]]]. destruct (i_store _ I' _ _ G) as [Hv [y [sl [K _]]]]. subst.
+      rewrite has_prefix_2 in P. apply N.eqb_eq in P. subst.
+      apply sys_exists_iff. exists sl.
+      assert (a_slot (apply_diff a (s_next s) d) y sl <> 0).
+      { rewrite <- ST. unfold getd. rewrite G. auto. }
+      split; auto.
+    - intros Hs. apply sys_exists_iff in Hs. destruct Hs as [k [_ Hv]]. rewrite <- ST in Hv.
+      unfold getd in Hv. destruct (get (s_store s') [x; k]) eqn:G; [|congruence].
+      destruct (i_store _ I' _ _ G) as [_ [y [sl [K Hc]]]]. inversion K; subst. auto. }
+  (* the record of a system contract holds class hash 0 and nonce 0 *)
+  assert (SZ : forall x, is_sys x = true -> get (s_class s') [x] <> None ->
+               get (s_class s') [x] = Some 0 /\ get (s_nonce s') [x] = Some 0).
+  { intros x Hx Hc. rewrite E1, E2 in *. rewrite get_upd_class in *. rewrite get_upd_nonce.
+    cbn [with_sys d_deploy d_replace d_nonce] in *.
+    destruct (find (fun e => keqb [x] [fst e]) (d_replace d)) eqn:F1.
+    { apply find_key_some in F1. destruct F1 as [K Hin]. inversion K; subst. rewrite (vs_rep _ _ V _ Hin) in Hx. discriminate. }
+    destruct (find (fun e => keqb [x] [fst e]) (d_nonce d)) eqn:F3.
+    { apply find_key_some in F3. destruct F3 as [K Hin]. inversion K; subst. rewrite (vs_non _ _ V _ Hin) in Hx. discriminate. }
+    rewrite find_app in *.
+    destruct (find (fun e => keqb [x] [fst e]) (sys_new (s_class s) d)) eqn:F2.
+    { apply find_key_some in F2. destruct F2 as [K Hin]. apply in_sys_new in Hin. destruct Hin as [Z _]. rewrite Z. auto. }
+    destruct (find (fun e => keqb [x] [fst e]) (d_deploy d)) eqn:F4.
+    { apply find_key_some in F4. destruct F4 as [K Hin]. inversion K; subst. rewrite (vs_dep _ _ V _ Hin) in Hx. discriminate. }
+    pose proof (ag_class _ _ Ag x) as G1. pose proof (ag_nonce _ _ Ag x) as G2. unfold a_exists in G1, G2.
+    rewrite Hx in G1, G2. destruct (sys_exists a x); simpl in *; auto. contradiction. }
+  constructor; auto.
+  - intros x. unfold a_exists. destruct (is_sys x) eqn:Hx.
+    + destruct (sys_exists (apply_diff a (s_next s) d) x) eqn:Hs.
+      * apply SX in Hs; auto. apply SZ in Hs; auto. destruct Hs as [Hs _]. rewrite Hs. auto.
+      * destruct (get (s_class s') [x]) eqn:G; auto.
+        assert (get (s_class s') [x] <> None) by congruence. apply SX in H; auto. congruence.
+    + simpl. rewrite E1, get_upd_class, !assoc_find. cbn [with_sys d_deploy d_replace]. rewrite find_app.
+      rewrite (find_sys_new_none _ _ _ Hx).
+      pose proof (ag_class _ _ Ag x) as G. unfold a_exists in G. rewrite Hx in G.
+      destruct (find (fun e => keqb [x] [fst e]) (d_replace d)) eqn:F1.
+      * apply find_key_some in F1. destruct F1 as [K Hin]. inversion K; subst.
+        pose proof (v_replace _ _ Vd _ Hin) as Hc.
+        destruct (find (fun e => keqb [fst p] [fst e]) (d_deploy d)) eqn:F2.
+        -- simpl. auto.
+        -- rewrite G in Hc. destruct (a_contract a (fst p)) as [[c nn]|]; simpl; auto. contradiction.
+      * destruct (find (fun e => keqb [x] [fst e]) (d_deploy d)) eqn:F2; simpl; auto.
+        rewrite G. destruct (a_contract a x) as [[c nn]|]; simpl; auto.
+  - intros x. unfold a_exists. destruct (is_sys x) eqn:Hx.
+    + destruct (sys_exists (apply_diff a (s_next s) d) x) eqn:Hs.
+      * apply SX in Hs; auto. apply SZ in Hs; auto. destruct Hs as [_ Hs]. rewrite Hs. auto.
+      * destruct (get (s_nonce s') [x]) eqn:G; auto.
+        destruct (get (s_class s') [x]) eqn:Gc.
+        -- assert (get (s_class s') [x] <> None) by congruence. apply SX in H; auto. congruence.
+        -- destruct (i_dom1 _ I' _ Gc) as [Hn _]. congruence.
+    + simpl. rewrite E2, get_upd_nonce, !assoc_find. cbn [with_sys d_deploy d_nonce]. rewrite find_app.
+      rewrite (find_sys_new_none _ _ _ Hx).
+      pose proof (ag_class _ _ Ag x) as G. pose proof (ag_nonce _ _ Ag x) as G2. unfold a_exists in G, G2. rewrite Hx in G, G2.
+      destruct (find (fun e => keqb [x] [fst e]) (d_nonce d)) eqn:F1.
+      * apply find_key_some in F1. destruct F1 as [K Hin]. inversion K; subst.
+        destruct (find (fun e => keqb [fst p] [fst e]) (d_deploy d)) eqn:F2; simpl; auto.
+        destruct (v_nonce _ _ Vd _ Hin) as [Hc | Hd].
+        -- rewrite G in Hc. destruct (a_contract a (fst p)) as [[c nn]|]; simpl; auto. contradiction.
+        -- cbn [with_sys d_deploy] in Hd. rewrite inkeys_app in Hd. apply orb_true_iff in Hd. destruct Hd as [Hd | Hd].
+           ++ apply inkeys_sys_new in Hd. apply in_sys_missing in Hd. destruct Hd as [Hd _]. congruence.
+           ++ apply inkeys_find in Hd. destruct Hd. congruence.
+      * destruct (find (fun e => keqb [x] [fst e]) (d_deploy d)) eqn:F2; simpl; auto.
+        rewrite G2. destruct (a_contract a x) as [[c nn]|]; simpl; auto.
+  - intros h. rewrite E4, get_upd_decl. rewrite (ag_decl _ _ Ag). simpl. rewrite mem_existsb. auto.
 Qed.
 
 Lemma read_head_ok : forall s a q, Inv s -> Agree s a -> read_head s q = lookup a q.
 Proof.
   intros s a q I Ag. destruct q; simpl.
-  - rewrite (ag_class _ _ Ag). destruct (a_contract a a0) as [[c nn]|]; auto.
-  - rewrite (ag_nonce _ _ Ag). destruct (a_contract a a0) as [[c nn]|]; auto.
+  - rewrite (ag_class _ _ Ag). destruct (a_exists a a0) as [[c nn]|]; auto.
+  - rewrite (ag_nonce _ _ Ag). destruct (a_exists a a0) as [[c nn]|]; auto.
   - rewrite (ag_store _ _ Ag). rewrite (ag_class _ _ Ag).
     destruct (negb (a_slot a a0 k =? 0)) eqn:E.
     + pose proof (ag_store _ _ Ag a0 k) as G. unfold getd in G.
       destruct (get (s_store s) [a0; k]) eqn:E1; [|lia].
       destruct (i_store _ I _ _ E1) as [_ [x [sl [K Hc]]]]. inversion K; subst.
-      rewrite (ag_class _ _ Ag) in Hc. destruct (a_contract a x) as [[c nn]|]; auto. contradiction.
-    + destruct (a_contract a a0) as [[c nn]|]; simpl; auto. f_equal. lia.
+      rewrite (ag_class _ _ Ag) in Hc. destruct (a_exists a x) as [[c nn]|]; auto. contradiction.
+    + destruct (a_exists a a0) as [[c nn]|]; simpl; auto. f_equal. lia.
   - rewrite (ag_decl _ _ Ag). destruct (a_decl a h); auto.
 Qed.
 
@@ -107,18 +186,18 @@ Proof.
   - rewrite (deployed_at_head s a0 n I En). pose proof (ag_class _ _ Ag a0) as G.
     destruct (get (s_class s) [a0]) eqn:E.
     + rewrite <- rev_val_succ. rewrite <- En. rewrite (h_class _ Hs _ _ E).
-      destruct (a_contract a a0) as [[c nn]|]; simpl in G; inversion G; auto.
-    + destruct (a_contract a a0) as [[c nn]|]; simpl in G; inversion G; auto.
+      destruct (a_exists a a0) as [[c nn]|]; simpl in G; inversion G; auto.
+    + destruct (a_exists a a0) as [[c nn]|]; simpl in G; inversion G; auto.
   - rewrite (deployed_at_head s a0 n I En). pose proof (ag_class _ _ Ag a0) as G. pose proof (ag_nonce _ _ Ag a0) as G2.
     destruct (get (s_class s) [a0]) eqn:E.
     + assert (get (s_class s) [a0] <> None) by congruence.
       destruct (i_dom2 _ I _ H) as [Hn _]. destruct (get (s_nonce s) [a0]) eqn:E2; [|contradiction].
       rewrite <- rev_val_succ. rewrite <- En. rewrite (h_nonce _ Hs _ _ E2).
-      destruct (a_contract a a0) as [[c nn]|]; simpl in G2; inversion G2; auto.
-    + destruct (a_contract a a0) as [[c nn]|]; simpl in G; inversion G; auto.
+      destruct (a_exists a a0) as [[c nn]|]; simpl in G2; inversion G2; auto.
+    + destruct (a_exists a a0) as [[c nn]|]; simpl in G; inversion G; auto.
   - rewrite (deployed_at_head s a0 n I En). pose proof (ag_class _ _ Ag a0) as G.
     rewrite <- rev_val_succ. rewrite <- En. rewrite (h_store _ Hs). rewrite (ag_store _ _ Ag).
-    destruct (get (s_class s) [a0]) eqn:E; destruct (a_contract a a0) as [[c nn]|]; simpl in G; inversion G; auto.
+    destruct (get (s_class s) [a0]) eqn:E; destruct (a_exists a a0) as [[c nn]|]; simpl in G; inversion G; auto.
   - rewrite (ag_decl _ _ Ag). destruct (a_decl a h) eqn:E; auto.
     rewrite <- (ag_decl _ _ Ag) in E. apply (i_decl _ I) in E. destruct (n <? n0) eqn:E1; auto. lia.
 Qed.
@@ -148,23 +227,24 @@ Proof.
   destruct (existsb _ (d_decl d)); auto. destruct (m <? s_next s) eqn:E; auto. lia.
 Qed.
 
-Lemma read_new_stable : forall s d q m, Inv s -> Valid s d -> m < s_next s ->
+Lemma read_new_stable : forall s d q m, Inv s -> VS s d -> m < s_next s ->
   read_new (store_new s d) q m = read_new s q m.
 Proof.
-  intros s d q m I Vd Hm.
-  assert (DA : forall x, deployed_at (store_new s d) x m = deployed_at s x m).
-  { intros. unfold deployed_at at 1. simpl. apply (deployed_at_stable s d m); auto. }
-  pose proof (Inv_store_new s d I Vd) as I'.
+  intros s d q m I V Hm. pose proof (vs_valid _ _ V) as Vd.
+  pose proof (Inv_store_new s d I V) as I'. rewrite store_new_eq in * by auto. cbv zeta in *.
+  match goal with |- read_new ?S' _ _ = _ =>
+    assert (DA : forall x, deployed_at S' x m = deployed_at s x m) end.
+  { intros. unfold deployed_at at 1. simpl. apply (deployed_at_stable s (with_sys (s_class s) d) m); auto. }
   destruct q; simpl read_new.
   - rewrite DA. destruct (deployed_at s a m); auto. f_equal.
     apply hist_stable; [apply (i_s8 _ I) | apply (i_s8 _ I') |].
-    intros. simpl. rewrite !get_lput1. destruct (b =? s_next s) eqn:E; auto. lia.
+    intros. unfold lclass_new. simpl. rewrite !get_lput1. destruct (b =? s_next s) eqn:E; auto. lia.
   - rewrite DA. destruct (deployed_at s a m); auto. f_equal.
     apply hist_stable; [apply (i_s7 _ I) | apply (i_s7 _ I') |].
-    intros. simpl. rewrite !get_lput1. destruct (b =? s_next s) eqn:E; auto. lia.
+    intros. unfold lnonce_new. simpl. rewrite !get_lput1. destruct (b =? s_next s) eqn:E; auto. lia.
   - rewrite DA. destruct (deployed_at s a m); auto. f_equal.
     apply hist_stable; [apply (i_s6 _ I) | apply (i_s6 _ I') |].
-    intros. simpl. rewrite !get_lput2. destruct (b =? s_next s) eqn:E; auto. lia.
+    intros. unfold lstore_new. simpl. rewrite !get_lput2. destruct (b =? s_next s) eqn:E; auto. lia.
   - simpl. apply decl_stable; auto.
 Qed.
 
